@@ -193,6 +193,7 @@ type c11Case struct {
 	backend string
 	gen     string   // -g value
 	popts   []string // one -p option string per plugin ("" = none)
+	names   []string // plugin binaries are links named rec_<name> (slots by name: plugins without parameters)
 	script  []string // REC_SCRIPT per plugin slot
 	extra   []string // extra thriftgo arguments
 	prog    int
@@ -253,6 +254,7 @@ func C11(r *vlib.Run) {
 			add(&c11Case{name: "ok/patch-by-name", gen: be, popts: []string{""}, script: []string{`{"mode":"ok","files":[{"name":"out/p.txt","content":"[` + ip + `]"},{"name":"out/other.txt","content":"o"},{"name":"out/p.txt","insertion_point":"spot","content":"late"}]}`}, files: map[string]string{"out/p.txt": "[late]", "out/other.txt": "o"}})
 			add(&c11Case{name: "ok/warnings", gen: be, popts: []string{""}, script: []string{`{"mode":"ok","warnings":["warning-one-zz","warning-two-zz"],"stderr":"stderr-text-zz"}`}, warn: []string{"warning-one-zz", "warning-two-zz", "stderr-text-zz"}})
 			add(&c11Case{name: "ok/two-plugins", gen: be, popts: []string{"slot=first,x=1", "slot=second,y=2"}, script: []string{`{"mode":"ok","files":[{"name":"out/one.txt","content":"1"}]}`, `{"mode":"ok","files":[{"name":"out/two.txt","content":"2"}]}`}, files: map[string]string{"out/one.txt": "1", "out/two.txt": "2"}})
+			add(&c11Case{name: "ok/three-plugins-middle-one-without-parameters", gen: be, popts: []string{"alpha=1,beta,gamma=x=y", "", "last=1"}, names: []string{"p1", "p2", "p3"}, script: []string{`{"mode":"ok"}`, `{"mode":"ok"}`, `{"mode":"ok"}`}})
 			add(&c11Case{name: "fault/error-response", gen: be, popts: []string{""}, script: []string{`{"mode":"error","error":"plugin-says-no-zz","files":[{"name":"out/must_not_exist.txt","content":"x"}]}`}, fail: true, warn: []string{"plugin-says-no-zz"}})
 			add(&c11Case{name: "fault/exit-status", gen: be, popts: []string{""}, script: []string{`{"mode":"exit","exit":3,"files":[{"name":"out/must_not_exist.txt","content":"x"}]}`}, fail: true})
 			add(&c11Case{name: "fault/garbage", gen: be, popts: []string{""}, script: []string{`{"mode":"garbage"}`}, fail: true})
@@ -271,14 +273,22 @@ func C11(r *vlib.Run) {
 		}
 		env := []string{"REC_DIR=" + filepath.Join(c.dir, "rec")}
 		for i, po := range c.popts {
-			a := "rec=" + rec
+			bin := rec
+			if len(c.names) > 0 {
+				bin = filepath.Join(c.dir, "rec_"+c.names[i])
+				os.Symlink(rec, bin)
+			}
+			a := "rec" + fmt.Sprint(i) + "=" + bin
 			if po != "" {
 				a += ":" + po
 			}
 			args = append(args, "-p", a)
-			if len(c.popts) == 1 {
+			switch {
+			case len(c.names) > 0:
+				env = append(env, "REC_SCRIPT_"+c.names[i]+"="+c.script[i])
+			case len(c.popts) == 1:
 				env = append(env, "REC_SCRIPT="+c.script[i])
-			} else {
+			default:
 				slot := strings.TrimPrefix(strings.SplitN(po, ",", 2)[0], "slot=")
 				env = append(env, "REC_SCRIPT_"+slot+"="+c.script[i])
 			}
@@ -338,7 +348,9 @@ func c11Judge(r *vlib.Run, c *c11Case, p *idl.Program, texts map[string]string) 
 	}
 	// ---- what the plugin saw ----
 	slots := []string{""}
-	if len(c.popts) > 1 {
+	if len(c.names) > 0 {
+		slots = c.names
+	} else if len(c.popts) > 1 {
 		slots = nil
 		for _, po := range c.popts {
 			slots = append(slots, strings.TrimPrefix(strings.SplitN(po, ",", 2)[0], "slot="))
